@@ -42,6 +42,37 @@ func TakeSchedSnap() SchedSnap {
 	return s
 }
 
+// CPUShare measures, with a short CPU-bound burst on the calling (locked) OS thread, which share of a CPU this
+// process gets at the moment when it wants to run: thread CPU time / wall time of the burst, in (0, 1].
+// On an idle machine it is close to 1; on a saturated or throttled one it drops, whatever the reason
+// (other processes, a CPU quota, a hypervisor).
+func CPUShare() float64 {
+	t0, c0 := time.Now(), threadCPU()
+	x := uint64(88172645463325252)
+	for c := threadCPU(); c-c0 < 4*time.Millisecond; c = threadCPU() {
+		for i := 0; i < 20000; i++ {
+			x ^= x << 13
+			x ^= x >> 7
+			x ^= x << 17
+		}
+		if time.Since(t0) > 2*time.Second {
+			break
+		}
+	}
+	sink = x
+	wall, cpu := time.Since(t0), threadCPU()-c0
+	if cpu <= 0 || wall <= 0 {
+		return 1
+	}
+	r := float64(cpu) / float64(wall)
+	if r > 1 {
+		r = 1
+	}
+	return r
+}
+
+var sink uint64
+
 // StallVerdict judges a period without progress that began at snapshot s (wall-clock watchdogs alone call a
 // starved process "hung" on a saturated machine):
 //
